@@ -2,6 +2,7 @@
 //! Reference arithmetic here is written independently of the library (shifts and masks on
 //! u128), so agreement is not circular.
 
+extern crate bytes as desert_core_bytes;
 use desert_core::{
     BinaryDeserializer, BinaryInput, BinaryOutput, DeserializationContext, Error, OwnedInput,
     SliceInput,
@@ -942,6 +943,167 @@ pub fn sc_size_calc(input: &[u8]) -> u32 {
     0
 }
 
+// ------------------------------------------------------------------ BOUNDED: built-in decoders vs reference on short inputs
+fn next_is(c: &mut std::mem::ManuallyDrop<DeserializationContext<'_>>, input: &[u8], used: usize) -> bool {
+    let nx = c.read_u8();
+    if used >= input.len() {
+        is_eof(&nx)
+    } else {
+        matches!(nx, Ok(b) if b == input[used])
+    }
+}
+
+fn ref_leb_u32(b: &[u8]) -> Option<(u32, usize)> {
+    let mut val: u64 = 0;
+    let mut used = 0usize;
+    while used < 5 && used < b.len() {
+        let x = b[used];
+        val |= ((x & 0x7F) as u64) << (7 * used);
+        used += 1;
+        if x & 0x80 == 0 || used == 5 {
+            return Some((val as u32, used));
+        }
+    }
+    None
+}
+
+/// bytes::Bytes: unsigned varint length, then exactly that many bytes (C01/C04/C06/C07/C12)
+pub fn sc_dec_bytes(input: &[u8]) -> u32 {
+    let mut c = std::mem::ManuallyDrop::new(DeserializationContext::new(input));
+    let r = std::mem::ManuallyDrop::new(<desert_core_bytes::Bytes as BinaryDeserializer>::deserialize(&mut *c));
+    let exp = match ref_leb_u32(input) {
+        Some((len, used)) if (len as usize) <= input.len() - used => Some((used, len as usize)),
+        _ => None,
+    };
+    match (&*r, exp) {
+        (Err(_), None) => 0,
+        (Ok(b), Some((used, len))) => {
+            if b.len() != len {
+                return 2;
+            }
+            let mut i = 0;
+            while i < 5 {
+                if i < len && b[i] != input[used + i] {
+                    return 3;
+                }
+                i += 1;
+            }
+            if !next_is(&mut c, input, used + len) {
+                return 4;
+            }
+            0
+        }
+        _ => 1,
+    }
+}
+
+/// String: zig-zag varint byte length (negative -> error), then UTF-8 bytes (validated)
+pub fn sc_dec_string(input: &[u8]) -> u32 {
+    let mut c = std::mem::ManuallyDrop::new(DeserializationContext::new(input));
+    let r = std::mem::ManuallyDrop::new(<String as BinaryDeserializer>::deserialize(&mut *c));
+    let exp = match ref_var_i32(input) {
+        Some((len, used)) if len >= 0 && (len as usize) <= input.len() - used => {
+            if std::str::from_utf8(&input[used..used + len as usize]).is_ok() {
+                Some((used, len as usize))
+            } else {
+                None
+            }
+        }
+        _ => None,
+    };
+    match (&*r, exp) {
+        (Err(_), None) => 0,
+        (Ok(st), Some((used, len))) => {
+            let sb = st.as_bytes();
+            if sb.len() != len {
+                return 2;
+            }
+            let mut i = 0;
+            while i < 4 {
+                if i < len && sb[i] != input[used + i] {
+                    return 3;
+                }
+                i += 1;
+            }
+            if !next_is(&mut c, input, used + len) {
+                return 4;
+            }
+            0
+        }
+        _ => 1,
+    }
+}
+
+/// Option<u16> and Result<u8, u16>: tags 0/1 only, payload big-endian, exact consumption
+pub fn sc_dec_opt_res(input: &[u8]) -> u32 {
+    {
+        let mut c = std::mem::ManuallyDrop::new(DeserializationContext::new(input));
+        let r = <Option<u16> as BinaryDeserializer>::deserialize(&mut *c);
+        let exp: Option<(Option<u16>, usize)> = if input.len() >= 1 && input[0] == 0 {
+            Some((None, 1))
+        } else if input.len() >= 3 && input[0] == 1 {
+            Some((Some(((input[1] as u16) << 8) | input[2] as u16), 3))
+        } else {
+            None
+        };
+        match (r, exp) {
+            (Err(_), None) => {}
+            (Ok(v), Some((e, used))) => {
+                if v != e {
+                    return 2;
+                }
+                if !next_is(&mut c, input, used) {
+                    return 3;
+                }
+            }
+            _ => return 1,
+        }
+    }
+    let mut c = std::mem::ManuallyDrop::new(DeserializationContext::new(input));
+    let r = <Result<u8, u16> as BinaryDeserializer>::deserialize(&mut *c);
+    let exp: Option<(Result<u8, u16>, usize)> = if input.len() >= 2 && input[0] == 1 {
+        Some((Ok(input[1]), 2))
+    } else if input.len() >= 3 && input[0] == 0 {
+        Some((Err(((input[1] as u16) << 8) | input[2] as u16), 3))
+    } else {
+        None
+    };
+    match (r, exp) {
+        (Err(_), None) => 0,
+        (Ok(v), Some((e, used))) => {
+            if v != e {
+                return 5;
+            }
+            if !next_is(&mut c, input, used) {
+                return 6;
+            }
+            0
+        }
+        _ => 4,
+    }
+}
+
+/// (u8, u16) written headerless: version byte 0 then the fields; exact consumption.  Inputs
+/// whose first byte is not 0 (evolved form) are not judged here.
+pub fn sc_dec_tuple_v0(input: &[u8]) -> u32 {
+    if input.len() >= 1 && input[0] != 0 {
+        return 0;
+    }
+    let mut c = std::mem::ManuallyDrop::new(DeserializationContext::new(input));
+    let r = <(u8, u16) as BinaryDeserializer>::deserialize(&mut *c);
+    if input.len() < 4 {
+        return if r.is_err() { 0 } else { 1 };
+    }
+    match r {
+        Ok((a, b)) if a == input[1] && b == (((input[2] as u16) << 8) | input[3] as u16) => {}
+        _ => return 2,
+    }
+    if !next_is(&mut c, input, 4) {
+        return 3;
+    }
+    0
+}
+
 pub type Scenario = fn(&[u8]) -> u32;
 
 /// name, function, input length the harness quantifies over, description
@@ -983,6 +1145,8 @@ pub const SCENARIOS: &[(&str, Scenario, usize, &str)] = &[
     ("byte_writers", sc_byte_writers, 3, "BOUNDED (3 bytes, all values): Vec<u8> / [u8] / [u8;3] writers emit raw length + bytes"),
     ("empty_writers", sc_empty_writers, 0, "BOUNDED (fixed): empty containers write count/length 0"),
     ("size_calc", sc_size_calc, 4, "SizeCalculator counts exactly the bytes of write_var_u32/_i32 that a recording sink receives, all 2^32 values"),
+    ("dec_bytes", sc_dec_bytes, 5, "BOUNDED: bytes::Bytes decoder == reference, all inputs of length 0..=5"),
+    ("dec_opt_res", sc_dec_opt_res, 4, "BOUNDED: Option<u16> and Result<u8,u16> decoders == reference, all inputs of length 0..=4"),
     ("var_read_any", sc_var_read_any, 6, "read_var_u32 == lenient reference reader on all inputs of length 0..=6"),
 ];
 
